@@ -9,8 +9,9 @@ from ref.agent import Database
 META = {
     "explanation": (
         "Termination and bounded work as an assertion: x690's decode (every name it is bound to in x690 and "
-        "puresnmp) is wrapped by a counter; processing a datagram of L octets may add at most 4*L + 16 decode calls "
-        "to what the authentic exchange needs, otherwise a budget exception ends the run -- a parse that loops or "
+        "puresnmp) is wrapped by a counter; an operation that receives L octets in total may make at most 4*L + 64 "
+        "decode calls (an absolute, linear bound -- the authentic exchange must meet it too), otherwise a budget "
+        "exception ends the run -- a parse that loops or "
         "re-scans without progress (which also grows its element list once per call) becomes a finite "
         "counter-example. The mutation -- the position and the new value of one octet of an authentic message, or a "
         "truncation point, or the nesting depth of a constructed value -- is chosen by the solver and enumerated "
@@ -22,7 +23,7 @@ META = {
         "which realises them anyway and produced engine artefacts.)"),
     "bounds": ["one substituted octet: quick = every TLV header position (tag and length octets) x 41 header values (all classes, the length forms 0x80..0x85, 0xFE, 0xFF) and every 4th content position x {0x00,0x30,0x80,0x81,0x84,0xFF}; thorough = every position x all 256 values for the v2c response, the discovery reply, the ideal-MAC authNoPriv response and the notification; every header position x all 256 values + every 2nd content position x 6 values for the other entry points",
                "every truncation point", "nesting depth 1..60 of constructed values", "every 1-octet datagram; 2-octet datagrams: 8 first octets x all second octets (thorough: all 65536 into the v2c response path)",
-               "entry points: response (v1, v2c, v3 noAuth/auth/authPriv), discovery reply, trap listener"],
+               "entry points: response (v1, v2c, v3 noAuth/auth/authPriv), discovery reply, trap listener; plus a v2c response with 160 bindings (super-linear work per binding shows there)"],
     "outside": ["datagrams longer than the base messages (60-200 octets)", "two or more simultaneous corruptions beyond the fully symbolic short datagrams",
                 "wall-clock time as such (decode calls are the proxy)"],
     "stubs": ["sender = scripted", "x690.decode call budget", "ideal-MAC jobs: usm.auth.create -> always authentic", "trap entry: puresnmp.api.raw.listen stub (as C19)"],
@@ -37,7 +38,8 @@ CONTENT_VALUES = [0x00, 0x30, 0x80, 0x81, 0x84, 0xFF]
 HEADER_VALUES = sorted(set(list(range(0, 9)) + [0x10, 0x24, 0x30, 0x31, 0x3F] + list(range(0x40, 0x47)) + [0x7E, 0x7F, 0x80, 0x81, 0x82, 0x83, 0x84,
                                                                                              0x85, 0x88, 0xA0, 0xA2, 0xA7, 0xA8, 0xBF, 0xC0, 0xFE, 0xFF]))
 FIRST_OCTETS = [0x30, 0x02, 0x04, 0xA2, 0xA7, 0xA8, 0x00, 0xFF]
-ENTRIES = ["v1", "v2c", "noauth", "md5", "sha1priv", "md5-idealmac", "sha1priv-idealmac", "discovery", "trap"]
+ENTRIES = ["v1", "v2c", "noauth", "md5", "sha1priv", "md5-idealmac", "sha1priv-idealmac", "discovery", "trap", "v2c-wide"]
+WIDE = [(C.O("8.%d.0" % (i + 1)), ("int", i)) for i in range(160)]
 
 
 def header_positions(data):
@@ -71,12 +73,15 @@ class Scenario:
         self.entry = entry
         self.kind = entry.split("-")[0] if entry not in ("discovery", "trap") else ("md5" if entry == "discovery" else "v2c")
         self.ideal = entry.endswith("idealmac")
+        self.wide = entry.endswith("wide")
 
     def oids(self):
+        if self.wide:
+            return [o for o, _ in WIDE]      # one response carrying 160 bindings
         return [o for o, _ in ALLTYPES[:4]] if self.kind != "v1" else [o for o, _ in ALLTYPES[:3]]
 
     def world(self):
-        db = Database(ALLTYPES if self.kind != "v1" else ALLTYPES[:9])
+        db = Database(WIDE if self.wide else (ALLTYPES if self.kind != "v1" else ALLTYPES[:9]))
         return C.World(self.kind, db)
 
     def run(self, world, answer):
@@ -118,6 +123,9 @@ def process(entry, mutate):
                 expected = sc.run(honest, honest.answer)
             base_calls = b0.calls
             base = honest.exchanges[sc.target_index()][1]
+            received = sum(len(resp) for _req, resp in honest.exchanges)
+            if base_calls > 4 * received + 64:
+                return "the authentic exchange itself (%d octets received) took %d decode calls" % (received, base_calls), None
         finally:
             honest.close()
         bad = mutate(base)
@@ -132,7 +140,8 @@ def process(entry, mutate):
             return resp
 
         try:
-            limit = base_calls + 4 * len(bad) + 16
+            # absolute bound: linear in the octets received during the operation (not relative to the authentic run)
+            limit = 4 * (received + len(bad)) + 64
             with C.DecodeBudget(limit) as budget:
                 try:
                     got = sc.run(world, answer)
@@ -146,10 +155,11 @@ def process(entry, mutate):
             if budget.calls > limit or outcome == "budget":
                 if budget.indefinite and known("F14"):
                     return None, "F14"
-                return "processing %d octets took more than %d decode calls (authentic exchange: %d)" % (len(bad), limit, base_calls), None
+                return "processing %d octets (%d received in total) took more than %d decode calls (authentic exchange: %d)" % (
+                    len(bad), received + len(bad), limit, base_calls), None
             # the client must remain usable
             try:
-                with C.DecodeBudget(base_calls + 64):
+                with C.DecodeBudget(4 * received + 64):
                     again = sc.run(world, world.answer)
             except Exception as exc:  # noqa: BLE001
                 fid = world.known_exception(exc)
@@ -278,9 +288,22 @@ def make_short(entry, n, firsts=None):
 
 
 def base_length(entry):
-    out = {}
-    process(entry, lambda base: out.setdefault("base", base) or base)
-    return out["base"]
+    """The authentic datagram that gets mutated (only used to lay out the jobs; must not depend on any budget)."""
+    if entry == "trap":
+        from props.c19 import notification
+        return notification(3, 1)[0]
+    sc = Scenario(entry)
+    honest = sc.world()
+    try:
+        try:
+            sc.run(honest, honest.answer)
+        except Exception:  # noqa: BLE001  (the harness reports this at run time; the layout only needs the bytes)
+            pass
+        if len(honest.exchanges) > sc.target_index():
+            return honest.exchanges[sc.target_index()][1]
+        return b"\x30\x00" * 40
+    finally:
+        honest.close()
 
 
 def jobs(tier):
@@ -295,11 +318,13 @@ def jobs(tier):
     for entry in ENTRIES:
         base = base_length(entry)
         hdr = header_positions(base)
-        if quick:
+        if entry == "v2c-wide":
+            hdr = hdr[:16]     # the wide response: message / PDU / list headers and the first bindings only
+        if quick or entry == "v2c-wide":
             if entry in ("sha1priv", "md5-idealmac"):
                 hdr = hdr[:24]
             groups = [("hdr", hdr[i:i + 8], HEADER_VALUES) for i in range(0, len(hdr), 8)]
-            content = [p for p in range(len(base)) if p not in set(hdr)][::4]
+            content = [p for p in range(len(base)) if p not in set(hdr)][::4][:60]
             groups += [("content", content[i:i + 40], CONTENT_VALUES) for i in range(0, len(content), 40)]
         elif entry in ("v2c", "discovery", "md5-idealmac", "trap"):
             allpos = list(range(len(base)))
@@ -314,7 +339,7 @@ def jobs(tier):
             out.append(Job(f"{entry}-substitute-{label}-{positions[0]:03d}", make_substitute(entry, positions, values),
                            [Arg("pos", 0, len(positions) - 1), Arg("val", 0, len(values) - 1)], timeout=600 if quick else 1800,
                            mode="E/concolic-window", functions=funcs, sample_every=53))
-        out.append(Job(f"{entry}-truncate", make_truncate(entry), [Arg("cut", 0, len(base))], timeout=600, mode="E/concolic-window",
+        out.append(Job(f"{entry}-truncate", make_truncate(entry), [Arg("cut", 0, min(len(base), 400))], timeout=600, mode="E/concolic-window",
                        functions=funcs, sample_every=7))
         if entry in ("v2c", "noauth", "discovery", "trap", "md5-idealmac") or not quick:
             out.append(Job(f"{entry}-nested", make_nested(entry), [Arg("depth", 1, 60), Arg("inner", 0, 2)], timeout=600,
